@@ -43,7 +43,7 @@ CONSTANTS MaxPre,      \* messages a session may send before its version message
 \* ------------------------------------------------------------------ grammar
 F(n) == [k |-> "F", n |-> n, e |-> 0]
 C(n, e) == [k |-> "C", n |-> n, e |-> e]
-V(n) == [k |-> "V", n |-> n, e |-> 0]
+V(n, of) == [k |-> "V", n |-> n, e |-> of]     \* a scalar that indexes a collection of "of" elements
 LB(n) == << [k |-> "L", n |-> n, e |-> 0], [k |-> "B", n |-> n, e |-> 0] >>
 
 TxIn(sl) == <<F(36)>> \o LB(sl) \o <<F(4)>>
@@ -52,10 +52,17 @@ TxOut(pl) == <<F(8)>> \o LB(pl)
 CoinbaseTx == <<F(4), F(2), C(1, 0)>> \o TxIn(4) \o <<C(2, 0)>> \o TxOut(22) \o TxOut(38) \o <<C(1, 0)>> \o LB(32) \o <<F(4)>>
 SpendTx == <<F(4), F(2), C(1, 0)>> \o TxIn(0) \o <<C(2, 0)>> \o TxOut(22) \o TxOut(25) \o <<C(2, 0)>> \o LB(72) \o LB(33) \o <<F(4)>>
 
-AllCmds == <<"version", "verack", "addr", "inv", "getdata", "notfound", "getblocks", "getheaders", "headers",
-             "tx", "block", "cmpctblock", "getblocktxn", "blocktxn", "ping", "pong", "feefilter", "sendcmpct",
+\* A name with a trailing digit is a further valid instance of the same wire command: headers2 / block2 / cmpctblock2
+\* carry block B2, whose parent B1 the node does not know unless the session announced it; getblocktxn1 / getblocktxn3
+\* index blocks with one / four transactions (getblocktxn: two).
+AllCmds == <<"version", "verack", "addr", "inv", "getdata", "notfound", "getblocks", "getheaders", "headers", "headers2",
+             "tx", "block", "block2", "cmpctblock", "cmpctblock2", "getblocktxn", "getblocktxn1", "getblocktxn3", "blocktxn",
+             "ping", "pong", "feefilter", "sendcmpct",
              "sendheaders", "getaddr", "getmp", "getmpdone", "xauth", "authack", "filterload", "unknown", "frame">>
 CmdSet == {AllCmds[i] : i \in 1..Len(AllCmds)}
+Wire(c) == CASE c = "headers2" -> "headers" [] c = "block2" -> "block" [] c = "cmpctblock2" -> "cmpctblock"
+             [] c \in {"getblocktxn1", "getblocktxn3"} -> "getblocktxn" [] OTHER -> c
+Orphans == {"headers2", "block2", "cmpctblock2"}
 
 Grammar(c) ==
   CASE c = "version" -> <<F(4), F(8), F(8), F(26), F(26), F(8)>> \o LB(15) \o <<F(4), F(1)>>
@@ -67,8 +74,13 @@ Grammar(c) ==
     [] c = "headers" -> <<C(2, 81), F(81), F(81)>>
     [] c = "tx" -> SpendTx
     [] c = "block" -> <<F(80), C(2, 0)>> \o CoinbaseTx \o SpendTx
-    [] c = "cmpctblock" -> <<F(80), F(8), C(1, 6), F(6), C(1, 0), V(0)>> \o CoinbaseTx
-    [] c = "getblocktxn" -> <<F(32), C(2, 0), V(0), V(0)>>
+    [] c = "cmpctblock" -> <<F(80), F(8), C(1, 6), F(6), C(1, 0), V(0, 2)>> \o CoinbaseTx
+    [] c = "headers2" -> <<C(1, 81), F(81)>>
+    [] c = "block2" -> <<F(80), C(1, 0)>> \o CoinbaseTx
+    [] c = "cmpctblock2" -> <<F(80), F(8), C(0, 6), C(1, 0), V(0, 1)>> \o CoinbaseTx
+    [] c = "getblocktxn" -> <<F(32), C(2, 0), V(0, 2), V(0, 2)>>
+    [] c = "getblocktxn1" -> <<F(32), C(1, 0), V(0, 1)>>
+    [] c = "getblocktxn3" -> <<F(32), C(3, 0), V(0, 4), V(1, 4), V(0, 4)>>       \* absolute 0, 2, 3
     [] c = "blocktxn" -> <<F(32), C(1, 0)>> \o SpendTx
     [] c \in {"ping", "pong", "feefilter", "unknown", "frame"} -> <<F(8)>>
     [] c = "sendcmpct" -> <<F(1), F(8)>>
@@ -78,8 +90,9 @@ Grammar(c) ==
     [] c = "filterload" -> <<F(11)>>
 
 CntKinds == {"cnt-1", "cnt+1", "cntfd", "cntfe", "cntffmax", "cntffbig", "cntneg", "cntwrap"}
+VecKinds == {"vec+1", "vec-1"}        \* the vector itself one element longer (the last one repeated) / shorter, count adjusted
 LenKinds == {"lenover1", "lenfd", "lenfe", "lenff"}
-ValKinds == {"valfd", "valfe", "valff"}
+ValKinds == {"val+1", "val-1", "valfd", "valfe", "valff"}
 FrameKinds == {"badmagic", "badsum", "oversize", "encflag", "encflag0", "lenover1", "cmdfull"}
 
 Cls(c, k, f) == [cmd |-> c, k |-> k, f |-> f]
@@ -94,8 +107,9 @@ Classes(c) ==
        \cup {Cls(c, "trunc", i) : i \in 1..(n - 1)}
        \cup {Cls(c, "into", i) : i \in {j \in Idx(g, {"B"}) : g[j].n >= 2}}
        \cup ({Cls(c, d, i) : i \in Idx(g, {"C"}), d \in CntKinds} \ {Cls(c, "cnt-1", i) : i \in {j \in Idx(g, {"C"}) : g[j].n = 0}})
+       \cup {Cls(c, d, i) : i \in {j \in Idx(g, {"C"}) : g[j].n >= 1}, d \in VecKinds}
        \cup {Cls(c, d, i) : i \in Idx(g, {"L"}), d \in LenKinds}
-       \cup {Cls(c, d, i) : i \in Idx(g, {"V"}), d \in ValKinds}
+       \cup ({Cls(c, d, i) : i \in Idx(g, {"V"}), d \in ValKinds} \ {Cls(c, "val-1", i) : i \in {j \in Idx(g, {"V"}) : g[j].n = 0}})
 
 FullAlphabet == UNION {Classes(c) : c \in CmdSet}
 Alphabet == {x \in FullAlphabet : (CmdFilter = {} \/ x.cmd \in CmdFilter) /\ (KindFilter = {} \/ x.k \in KindFilter \/ x.k = "valid")}
@@ -261,7 +275,16 @@ RecvValid(x) ==
   /\ x.k = "valid" /\ x.cmd # "frame" /\ (ver \/ x.cmd = "version") /\ ~(ver /\ x.cmd = "version")
   /\ Count(x)
   /\ LET c == x.cmd IN
-     CASE c = "version" -> /\ ver' = TRUE /\ UNCHANGED <<cmpct, auth, addrd, ahr, bip, h1, h2, mp>>
+     CASE c \in Orphans /\ h1 = "no" ->        \* the parent of B2 is unknown: the header does not connect (PH_STATUS_ERROR)
+            /\ UNCHANGED <<ver, cmpct, auth, addrd, bip, h1, h2, mp>>
+            /\ ahr' = (IF c = "headers2" THEN TRUE ELSE IF c = "cmpctblock2" THEN FALSE ELSE ahr)
+            /\ IF c = "block2" THEN Apply(P(<<"+rcv", "+c", "-c", "+idx", "-idx", "-rcv">>, "ok"), 0)
+               ELSE IF c = "headers2" THEN Apply(P(<<"+c", "-c", "~rcv", "~idx">> \o Ban, "penalised"), 50)
+               ELSE Apply(P(<<"~rcv", "+c", "-c", "+c", "-c">> \o Ban, "penalised"), 50)
+       [] c \in Orphans /\ h1 # "no" ->        \* B2 connects; what it does to the download bookkeeping is not modelled
+            /\ Same
+            /\ \E p \in ErrExits(Wire(c)) \cup {P(WF(Wire(c)), "ok")} : \E pen \in PenSet : Apply(p, pen)
+       [] c = "version" -> /\ ver' = TRUE /\ UNCHANGED <<cmpct, auth, addrd, ahr, bip, h1, h2, mp>>
                            /\ Apply(P(WF(c), "ok"), 0)
        [] c = "sendcmpct" -> /\ cmpct' = (IF cmpct < 2 THEN 2 ELSE cmpct) /\ UNCHANGED <<ver, auth, addrd, ahr, bip, h1, h2, mp>>
                              /\ Apply(P(WF(c), "ok"), 0)
@@ -293,7 +316,7 @@ RecvValid(x) ==
                                ELSE bip' = bip /\ h1' = h1 /\ Apply(P(<<"~rcv", "+c", "-c">> \o Ban, "penalised"), 100)
        [] c = "getmp" -> /\ Same /\ (IF auth = "ok" THEN Apply(P(WF(c), "ok"), 0) ELSE Apply(P(<< >>, "ignored"), 0))
        [] c \in {"verack", "unknown"} -> /\ Same /\ Apply(P(<< >>, "ignored"), 0)
-       [] OTHER -> /\ Same /\ Apply(P(WF(c), "ok"), 0)
+       [] OTHER -> /\ Same /\ Apply(P(WF(Wire(c)), "ok"), 0)
 
 \* --- a malformed payload after the handshake (or a malformed version message): any exit of the handler.
 \*     The handler may also take it for good (trailing bytes, a tolerated truncation): then the session state may
@@ -301,7 +324,7 @@ RecvValid(x) ==
 RecvMalformed(x) ==
   /\ x.k # "valid" /\ x.cmd # "frame" /\ (ver \/ x.cmd = "version") /\ ~(ver /\ x.cmd = "version")
   /\ Count(x) /\ UNCHANGED <<cmpct, auth, addrd, ahr, bip, h1, h2, mp>>
-  /\ \E p \in ErrExits(x.cmd) \cup DefectPaths(x.cmd) \cup {P(WF(x.cmd), "ok")} :
+  /\ \E p \in ErrExits(Wire(x.cmd)) \cup DefectPaths(Wire(x.cmd)) \cup {P(WF(Wire(x.cmd)), "ok")} :
         /\ \E pen \in PenSet : Apply(p, pen)
         /\ ver' = (IF x.cmd = "version" /\ p.out = "ok" THEN TRUE ELSE ver)
 
